@@ -637,7 +637,7 @@ func redactArrayValuesWithKey(parentKey string, arr []any, redactFieldNames bool
 						arr[i] = item
 					}
 				} else {
-					arr[i] = redactScalarValue([]string{parentKey}, item, isSearchStage, isSelectivelyRedactable)
+					arr[i] = redactScalarValue([]string{parentKey}, item, isSearchStage, isSelectivelyRedactable || reMatchesAnyKeyInPath(&keyPath, redactedFieldsRegexp))
 				}
 			}
 		}
